@@ -378,16 +378,103 @@ inductive Outcome where
     `if not validation_result: return _abort(...)` of `process_graphql_query` (after C19-Q1vars.patch the request
     variables reach the validators). The default validator is abstracted to the number of errors it reports
     (it ignores the variables; that it does not raise on parsed documents is C05's statement). -/
-def pipeline (fuel n : Nat) (filter : Option String) (doc : Doc) (defs : List (List VarDef)) (vars : Vars)
-    (defaultErrors : Nat) : Outcome :=
-  match ruleV fuel n filter doc defs vars with
+def outcomeOf (r : Except Err (List (Nat × Nat))) (defaultErrors : Nat) : Outcome :=
+  match r with
   | .error e => .raised e
   | .ok errs => if defaultErrors = 0 ∧ errs = [] then .executed else .rejected errs defaultErrors
+
+def pipeline (fuel n : Nat) (filter : Option String) (doc : Doc) (defs : List (List VarDef)) (vars : Vars)
+    (defaultErrors : Nat) : Outcome :=
+  outcomeOf (ruleV fuel n filter doc defs vars) defaultErrors
 
 /-- the request is rejected with (at least) a depth error -/
 def Outcome.depthRejected : Outcome → Bool
   | .rejected (_ :: _) _ => true
   | _ => false
+
+/-! #### arbitrary JSON request variables: what the rule does when they do NOT coerce
+
+  `VarDef`/`Vars` above cover Boolean variables with boolean values. Here the request variables are raw JSON
+  values and operations may declare `Int` variables too: `coerce_variable_values` can now fail for SOME
+  operations of a document (missing required variable, explicit `null` for a non-null type, wrong JSON kind),
+  and the rule then falls back to the RAW mapping, whose values `_skip_selection` uses by Python truthiness;
+  an unavailable (missing or `null`) directive variable makes `coerce_argument_values` raise `CoercionError`. -/
+
+inductive RawVal where
+  | bool (b : Bool) | null | int (n : Int) | str (s : String)
+  /-- a JSON array / object: only its emptiness matters (truthiness) -/
+  | list (nonEmpty : Bool)
+  deriving Repr, DecidableEq, Inhabited
+
+/-- Python truthiness of a JSON value -/
+def RawVal.truthy : RawVal → Bool
+  | .bool b => b | .null => false | .int n => n != 0 | .str s => s != "" | .list ne => ne
+
+inductive VTy where
+  | boolean | int
+  deriving Repr, DecidableEq, Inhabited
+
+/-- `$name: Boolean|Int [!] [= default]` (the default is a literal of the variable's type) -/
+structure VarDefR where
+  name : String
+  ty : VTy
+  nonNull : Bool
+  default : Option RawVal
+  deriving Repr, DecidableEq, Inhabited
+
+abbrev RawVars := List (String × RawVal)
+
+/-- `coerce_value(value, type)` for a non-null JSON value: `Boolean.parse` = `_parse_bool` (containers rejected,
+    otherwise `bool(value)`); `Int.parse` = `coerce_int` (ints — `True`/`False` included — and integer strings
+    within 32 bits; float forms are not modelled). `none` = the value does not coerce. -/
+def coerceScalar : VTy → RawVal → Option RawVal
+  | .boolean, .list _ => none
+  | .boolean, v => some (.bool v.truthy)
+  | .int, .int n => if decide (-2147483648 ≤ n) && decide (n ≤ 2147483647) then some (.int n) else none
+  | .int, .bool b => some (.int (if b then 1 else 0))
+  | .int, .str s =>
+    match s.toInt? with
+    | some n => if decide (-2147483648 ≤ n) && decide (n ≤ 2147483647) then some (.int n) else none
+    | none => none
+  | .int, _ => none
+
+/-- the view `_skip_selection` has of a variables mapping: available (non-null) values by truthiness;
+    a missing or `null` variable is unavailable (`CoercionError` when a directive needs it) -/
+def viewOf : RawVars → Vars
+  | [] => []
+  | (n, v) :: rest => match v with
+    | .null => viewOf rest
+    | v => (n, v.truthy) :: viewOf rest
+
+/-- `coerce_variable_values(schema, op, variables)` as a view; `none` = `VariablesCoercionError` -/
+def coerceRaw : List VarDefR → RawVars → Option RawVars
+  | [], _ => some []
+  | d :: ds, raw =>
+    match coerceRaw ds raw with
+    | none => none
+    | some rest =>
+      match raw.lookup d.name with
+      | none =>
+        match d.default with
+        | some v => some ((d.name, v) :: rest)
+        | none => if d.nonNull then none else some rest
+      | some .null => if d.nonNull then none else some ((d.name, .null) :: rest)
+      | some v =>
+        match coerceScalar d.ty v with
+        | some c => some ((d.name, c) :: rest)
+        | none => none
+
+/-- `try: coerce_variable_values(...) except VariablesCoercionError: op_variables = variables` -/
+def effectiveVarsR (defs : List VarDefR) (raw : RawVars) : Vars :=
+  viewOf ((coerceRaw defs raw).getD raw)
+
+def ruleR (fuel limit : Nat) (filter : Option String) (doc : Doc) (defs : List (List VarDefR)) (raw : RawVars) :
+    Except Err (List (Nat × Nat)) :=
+  ruleLoop (fun i op => depthFixed fuel op doc.frags (effectiveVarsR (defs.getD i []) raw)) limit filter 0 doc.ops
+
+def pipelineR (fuel n : Nat) (filter : Option String) (doc : Doc) (defs : List (List VarDefR)) (raw : RawVars)
+    (defaultErrors : Nat) : Outcome :=
+  outcomeOf (ruleR fuel n filter doc defs raw) defaultErrors
 
 /-! ### fuel: a computable potential that bounds every recursion on acyclic documents -/
 
